@@ -19,6 +19,7 @@ package types
 
 import (
 	"bytes"
+	"database/sql"
 	"encoding/base64"
 	"encoding/json"
 	"fmt"
@@ -199,7 +200,12 @@ func (c *ColumnImage) MarshalJSON() ([]byte, error) {
 	if t, ok := c.Value.(time.Time); ok {
 		value = t.Format(time.RFC3339Nano)
 	}
-	if b, ok := c.Value.([]byte); ok {
+	b, ok := c.Value.([]byte)
+	if raw, isRaw := c.Value.(sql.RawBytes); isRaw {
+		// what the row scanner delivers for the column types it has no case for (LONGTEXT, ENUM ...)
+		b, ok = []byte(raw), true
+	}
+	if ok {
 		switch c.ColumnType {
 		case JDBCTypeChar, JDBCTypeVarchar, JDBCTypeLongVarchar:
 			// text stays text: encoding/json would write a byte slice as base64, which the decoder
